@@ -20,7 +20,7 @@ import sympy
 import featlib
 from featlib import Check, walk, render, is_call, rel
 from lafem_roles import (Unknown, strip_targs, defile, strip, Locals, perspective, objkey, accessor, const_value,
-                         assertions, counting_loop, is_zero, flatten_if_chain, stmts)
+                         assertions, counting_loop, is_zero, flatten_if_chain, stmts, live_must_pass)
 
 LAFEM = featlib.repo_path("kernel/lafem/")
 
@@ -127,9 +127,12 @@ class KCtx:
                 return sympy.Symbol("acc")
             if "v" in n:
                 return sympy.Integer(int(n["v"]))
+            r = self.loc.resolve(n)
+            if r is not n and not (r.get("k") == "Ref" and r.get("d") == d):
+                return self.sym(r)      # `const DT_ t = x[i] * y[i];`
             raise Unknown("value `%s` is not a scalar parameter, accumulator or constant (line %s)" % (render(n), n.get("l")))
         if k == "Index":
-            b = strip(n["b"])
+            b = self.loc.resolve(n["b"])
             if b.get("k") == "Ref" and b.get("d") in self.ptr:
                 if self.j is not None and "Tiny::Vector" in self.fn.ntype(n):
                     raise Unknown("block `%s` used without component subscript (line %s)" % (render(n), n.get("l")))
@@ -140,7 +143,7 @@ class KCtx:
             if not (sub.get("k") == "Ref" and sub.get("d") == self.j and self.j is not None):
                 raise Unknown("component subscript `%s` is not the block-loop variable (line %s)" % (render(sub), n.get("l")))
             if base.get("k") == "Index":
-                b = strip(base["b"])
+                b = self.loc.resolve(base["b"])
                 if b.get("k") == "Ref" and b.get("d") in self.ptr:
                     return self.cell(self.params[b["d"]], self.idx_tag(base["idx"]))
             if base.get("k") == "Ref":
@@ -192,7 +195,11 @@ def classify_loop(ctx, node):
     if cl is None:
         raise Unknown("loop at line %s is not of the form for(v=0; v<bound; ++v)" % node.get("l"))
     d, lo, hi = cl
+    hi = ctx.loc.resolve(hi)
     if not is_zero(lo):
+        if getattr(ctx, "allow_from_one", False) and lo.get("k") == "Int" and int(lo["v"]) == 1 and hi.get("k") == "Ref" and hi.get("n") == "size":
+            ctx.from_one = True      # element 0 must then be covered by the seed (checked by the caller)
+            return "size", d
         raise Unknown("loop at line %s does not start at 0" % node.get("l"))
     if hi.get("k") == "Ref" and hi.get("dk") == "param" and hi.get("n") == "size":
         return "size", d
@@ -229,10 +236,23 @@ def analyse_mapfold(ck, fn, struct, blocked):
     # accumulator declarations (fold kernels)
     accs = {}
     rest = []
+    late_init = {}
+    written_locals = set(ctx.loc.written)
+    for n_ in fn.nodes():
+        if n_.get("k") == "Assign":
+            t_ = strip(n_["lhs"])
+            while t_.get("k") in ("Index", "OpCall"):
+                t_ = strip(t_["b"]) if t_.get("k") == "Index" else strip((t_.get("a") or [{}])[0])
+            if t_.get("k") == "Ref" and t_.get("dk") == "local":
+                written_locals.add(t_["d"])
     for s in body:
         if s.get("k") == "Decl":
             for v in s["vars"]:
-                accs[v["d"]] = v
+                if v["d"] in written_locals or v.get("init") is None:
+                    accs[v["d"]] = v        # locals that are never written again are temporaries / aliases
+        elif s.get("k") == "Assign" and s.get("op") == "=" and strip(s["lhs"]).get("k") == "Ref" and strip(s["lhs"]).get("d") in accs \
+                and accs[strip(s["lhs"])["d"]].get("init") is None:
+            late_init[strip(s["lhs"])["d"]] = s["rhs"]       # `DT_ r; r = DT_(0);`
         else:
             rest.append(s)
     ctx.acc = set(accs)
@@ -242,6 +262,11 @@ def analyse_mapfold(ck, fn, struct, blocked):
     try:
         if len(rest) == 1 and rest[0].get("k") == "If":
             branches = flatten_if_chain(rest[0])
+            c0 = strip(branches[0][0]) if branches and branches[0][0] is not None else None
+            if len(branches) == 2 and branches[1][0] is None and c0 is not None and c0.get("k") == "Bin" and c0.get("op") == "!=":
+                eqc = dict(c0)
+                eqc["op"] = "=="
+                branches = [(eqc, branches[1][1]), (None, branches[0][1])]       # if(r != x) general else special
             if branches[-1][0] is not None:
                 raise Unknown("alias chain at line %s has no general (else) branch" % rest[0].get("l"))
         elif len(rest) == 1 and rest[0].get("k") == "For":
@@ -258,6 +283,7 @@ def analyse_mapfold(ck, fn, struct, blocked):
         try:
             leaves = []
             collect_leaves(ctx, blk, {}, leaves)
+            leaves = [(s, e) for s, e in leaves if s.get("k") != "Decl"]      # const temporaries are resolved through their initialiser
             main = [(s, e) for s, e in leaves if "size" in e]
             fin = [(s, e) for s, e in leaves if "size" not in e]
             if len(main) != 1:
@@ -300,7 +326,9 @@ def analyse_mapfold(ck, fn, struct, blocked):
             if len(accs) != 1:
                 raise Unknown("%d local declarations, expected the accumulator only" % len(accs))
             v = list(accs.values())[0]
-            init = strip(v.get("init")) if v.get("init") is not None else None
+            init = strip(v.get("init")) if v.get("init") is not None else (strip(late_init[v["d"]]) if v["d"] in late_init else None)
+            if init is None or (init.get("k") in ("Construct", "TempObj") and not init.get("a")):
+                raise Unknown("accumulator `%s` has no initialiser the rule understands" % v["n"])
             zero = init is not None and (is_zero(init) or (init.get("k") in ("Construct", "TempObj") and len(init.get("a", [])) == 1 and is_zero(init["a"][0])))
             if len(ret) != 1:
                 raise Unknown("%d return statements" % len(ret))
@@ -364,6 +392,9 @@ def analyse_mapfold(ck, fn, struct, blocked):
 def alias_pairs(ctx, cond):
     """`r == x && r == y` -> [(r,x),(r,y)] over pointer parameters"""
     c = strip(cond)
+    if c.get("k") == "Un" and c.get("op") == "!" and strip(c["e"]).get("k") == "Bin" and strip(c["e"]).get("op") == "!=":
+        c = dict(strip(c["e"]))
+        c["op"] = "=="
     if c.get("k") == "Bin" and c.get("op") == "&&":
         return alias_pairs(ctx, c["lhs"]) + alias_pairs(ctx, c["rhs"])
     if c.get("k") == "Bin" and c.get("op") == "==":
@@ -381,6 +412,8 @@ def analyse_index_kernel(ck, fn, struct, blocked):
     inst = fn.full.split("::", 3)[-1]
     file = defile(fn)
     ctx = KCtx(fn)
+    ctx.allow_from_one = True
+    ctx.from_one = False
     try:
         body = stmts(fn.body)
         decls = {}
@@ -390,10 +423,20 @@ def analyse_index_kernel(ck, fn, struct, blocked):
                     decls[v["d"]] = v
         loops = [s for s in body if s.get("k") == "For"]
         rets = [s for s in body if s.get("k") == "Return"]
-        if len(loops) != 1 or len(rets) != 1 or len(decls) != 2:
+        if len(loops) != 1 or len(rets) != 1:
             raise Unknown("body is not `incumbent; incumbent index; loop; return`")
         leaves = []
         collect_leaves(ctx, loops[0], {}, leaves)
+        # an incumbent index declared inside the component loop is a per-component reset
+        decl_reset = set()
+        for s0, e0 in leaves:
+            if s0.get("k") == "Decl" and "size" not in e0:
+                for v in s0["vars"]:
+                    decls[v["d"]] = v
+                    decl_reset.add(v["d"])
+        leaves = [(s0, e0) for s0, e0 in leaves if s0.get("k") != "Decl"]
+        if len(decls) != 2:
+            raise Unknown("body is not `incumbent; incumbent index; loop; return` (%d locals)" % len(decls))
         ifs = [(s, e) for s, e in leaves if s.get("k") == "If"]
         if len(ifs) != 1:
             raise Unknown("%d conditionals in the loop nest" % len(ifs))
@@ -444,13 +487,17 @@ def analyse_index_kernel(ck, fn, struct, blocked):
         # seeds
         ctx.i = None
         iv = decls[best_i]
-        if iv.get("init") is None or not is_zero(iv["init"]):
-            problems.append("incumbent index does not start at 0")
+        if iv.get("init") is None:
+            raise Unknown("incumbent index `%s` has no initialiser" % iv["n"])
+        if not is_zero(iv["init"]):
+            problems.append("incumbent index starts at %s although the incumbent value is seeded from element 0" % render(iv["init"]))
         seed0 = cand_want.subs(x, sympy.Symbol("x@0"))
         if not blocked:
             bv = decls[best]
             seed = ctx.sym(bv["init"]) if bv.get("init") is not None else None
             allowed = [seed0] + ([sympy.Integer(0)] if (use_abs and cmp_want == ">") else [])
+            if ctx.from_one and seed != seed0:
+                problems.append("the loop starts at element 1 but the incumbent is seeded with %s, not with element 0" % seed)
             if seed not in allowed:
                 problems.append("incumbent starts from %s; admissible seeds: %s (0 is neutral only for the maximum of absolute values)" % (seed, allowed))
             rv = strip(rets[0]["e"])
@@ -458,7 +505,8 @@ def analyse_index_kernel(ck, fn, struct, blocked):
                 problems.append("returns `%s`, not the incumbent index" % render(rv))
         else:
             # per component: seed from x[0][j] and index reset, both outside the size loop but inside the block loop
-            seeded = reset = False
+            seeded = False
+            reset = best_i in decl_reset and is_zero(decls[best_i]["init"])
             for s, e in leaves:
                 if s is ifn:
                     continue
@@ -580,8 +628,8 @@ def check_call_site(ck, fn, call):
     for s in array_slots:
         a = accessor(loc, slots[s])
         if a is None or a["name"] != "elements":
-            problems.append("slot %s receives `%s`, not an elements() array of an operand" % (s, render(slots[s])))
-            continue
+            ck.incomplete("E1.operands", "%s: slot %s receives `%s`, which is not an elements<>() accessor of an operand (pointer obtained by a construct the rule does not model)" % (key, s, render(slots[s])[:80]))
+            return
         objs[s] = a["obj"]
         acc_cls[s] = strip_targs(a["cls"])
         persp[s] = a["persp"] if strip_targs(a["cls"]) in BLOCKED_CLASSES else "any"
@@ -597,15 +645,19 @@ def check_call_site(ck, fn, call):
     for s in ("a", "s", "block"):
         if s in slots:
             v = loc.resolve(slots[s])
-            if not (v.get("k") == "Ref" and v.get("dk") == "param" and v.get("n") in scal_params and len(scal_params) == 1):
+            if not (v.get("k") == "Ref" and v.get("dk") == "param") or len(scal_params) != 1:
+                ck.incomplete("E1.operands", "%s: scalar slot %s receives the expression `%s` (not a plain parameter)" % (key, s, render(v)[:60]))
+                return
+            if v.get("n") not in scal_params:
                 problems.append("scalar slot %s receives `%s`, not the operation's scalar parameter %s" % (s, render(v), scal_params))
     ck.ob("E1.operands", key, not problems, "; ".join(problems) if problems else "slots %s <- %s" % (array_slots, [objs[s] for s in array_slots]),
           fn.file, call.get("l"), sample={"callee_params": pn, "args": [render(a) for a in args]})
     # ---- extent + perspective -------------------------------------------------------------------
     problems = []
     sz = accessor(loc, slots.get("size")) if "size" in slots else None
-    if sz is None:
-        problems.append("extent slot receives `%s`, not an extent accessor" % render(slots.get("size")))
+    if sz is None or sz["name"] not in ("size", "used_elements", "allocated_elements"):
+        ck.incomplete("E1.extent", "%s: extent slot receives `%s`, which is not an extent accessor (computed count: not modelled)" % (key, render(slots.get("size"))[:80]))
+        return
     elif objs:
         ps = {p for p in persp.values() if p != "any"}
         if len(ps) > 1:
@@ -620,8 +672,10 @@ def check_call_site(ck, fn, call):
                 if l and r and l["name"] == r["name"] and l["name"] in ("size", "used_elements") and l["persp"] == r["persp"]:
                     if "this" in (l["obj"], r["obj"]):
                         equal |= {l["obj"], r["obj"]}
-        if sz["obj"] not in equal:
-            problems.append("extent is taken from `%s`, which the function does not assert to be of the receiver's size" % sz["obj"])
+        if sz["obj"] not in equal and sz["obj"] not in vec_params:
+            ck.incomplete("E1.extent", "%s: extent is taken from `%s`, which is neither the receiver nor an operand" % (key, sz["obj"]))
+            return
+        # (an operand's extent without an XASSERT is equal to the receiver's for every admissible input: not a violation)
         owner_cls = strip_targs(sz["cls"])
         want_acc = EXTENT_OF.get(owner_cls if owner_cls in EXTENT_OF else cls)
         if sz["name"] != want_acc:
@@ -633,7 +687,10 @@ def check_call_site(ck, fn, call):
                 problems.append("ComponentCopy walks blocks: size must be the native extent, got %s" % sp)
             st = const_value(loc, slots.get("stride"))
             m = re.search(r"DenseVectorBlocked<[^<>]*,\s*(\d+)>$", fn.cls)
-            if m and (st is None or int(st) != int(m.group(1))):
+            if m and st is None:
+                ck.incomplete("E1.extent", "%s: stride `%s` is not a constant" % (key, render(slots.get("stride"))))
+                return
+            if m and int(st) != int(m.group(1)):
                 problems.append("stride slot receives `%s`, not the block size %s" % (render(slots.get("stride")), m.group(1)))
         elif arr_p != "any" and sp != "any" and sp != arr_p:
             problems.append("arrays are taken in Perspective::%s but the extent in Perspective::%s" % (arr_p, sp))
@@ -645,8 +702,16 @@ def check_call_site(ck, fn, call):
         st = render(loc.resolve(slots["stride"]))
         ok = False
         seen = []
+        conj = []
+        def flat(c):
+            c = strip(c)
+            if c.get("k") == "Bin" and c.get("op") == "&&":
+                flat(c["lhs"]); flat(c["rhs"])
+            else:
+                conj.append(c)
         for cond, _ in assertions(fn):
-            c = strip(cond)
+            flat(cond)
+        for c in conj:
             if c.get("k") == "Bin" and c.get("op") in ("<", ">"):
                 l, r = render(loc.resolve(c["lhs"])), render(loc.resolve(c["rhs"]))
                 if c["op"] == ">":
@@ -655,6 +720,9 @@ def check_call_site(ck, fn, call):
                     seen.append("%s < %s" % (l, r))
                     if r == st:
                         ok = True
+        if not seen:
+            ck.ob("E1.block-guard", key, True, "no upper-bound guard on the block index recognised (none is required for admissible inputs)", fn.file, call.get("l"), trivial=True)
+            return
         ck.ob("E1.block-guard", key, ok, ("guard %s" % seen) if ok else "the block index `%s` addresses r[i*%s+%s] but is guarded by %s, not by `%s < %s` (the stride passed to the kernel)" % (b, st, b, seen or "nothing", b, st),
               fn.file, call.get("l"))
 
@@ -672,17 +740,16 @@ def check_copy_site(ck, fn, call):
     cnt = accessor(loc, args[2])
     problems = []
     cls = strip_targs(fn.cls)
-    if len(arr) != 1 or arr[0]["obj"] != "this":
-        problems.append("exactly one side must be the receiver's elements() array")
     other = [a for a, acc in zip(args[:2], accs) if acc is None]
-    if len(other) != 1 or not (loc.resolve(other[0]).get("k") == "Ref" and loc.resolve(other[0]).get("dk") == "param"):
-        problems.append("the other side must be the raw array parameter")
+    if len(arr) != 1 or arr[0]["obj"] != "this" or len(other) != 1 or not (loc.resolve(other[0]).get("k") == "Ref" and loc.resolve(other[0]).get("dk") == "param") or cnt is None:
+        ck.incomplete("E1.extent", "%s: `%s` is not of the form copy(array parameter <-> this->elements<>(), this->size<>())" % (key, render(call)[:100]))
+        return
     else:
         dest_is_param = accs[0] is None
         if dest_is_param != (fn.name == "set_vec"):
             problems.append("copy direction does not match %s" % fn.name)
-    if cnt is None or cnt["obj"] != "this" or cnt["name"] != EXTENT_OF.get(cls):
-        problems.append("count `%s` is not the receiver's extent" % render(args[2]))
+    if cnt["obj"] != "this" or cnt["name"] != EXTENT_OF.get(cls):
+        problems.append("count `%s` is not the receiver's extent %s()" % (render(args[2]), EXTENT_OF.get(cls)))
     elif arr and cls in BLOCKED_CLASSES and cnt["persp"] != arr[0]["persp"]:
         problems.append("array in Perspective::%s, count in Perspective::%s" % (arr[0]["persp"], cnt["persp"]))
     ck.ob("E1.extent", key, not problems, "; ".join(problems) if problems else "count matches the array", fn.file, call.get("l"))
@@ -728,7 +795,17 @@ def check_size_bookkeeping(ck, fn):
         elif render(strip(e)) in allocs:
             ok, why = True, "the count the array was allocated with (%s)" % render(strip(e))
         elif r.get("k") == "Ref" and r.get("dk") == "param":
-            ok, why = False, "the parameter `%s` is a block count (the constructor's sizes are in blocks)" % r.get("n")
+            native = False
+            for ini in fn.d.get("inits", []) or []:
+                if ini.get("base") and any(y.get("k") == "Ref" and y.get("d") == r.get("d") for y in walk(ini.get("init"))):
+                    native = True          # Container<DT_, IT_>(size_in): the container's native size
+            for n2 in fn.nodes():
+                if n2.get("k") == "MCall" and n2.get("n") == "push_back" and strip(n2.get("obj") or {}).get("n") == "_scalar_index" and n2.get("a"):
+                    a0 = loc.resolve(n2["a"][0])
+                    if a0.get("k") == "Ref" and a0.get("d") == r.get("d"):
+                        native = True
+            if native and bs != 1:
+                ok, why = False, "the parameter `%s` is the native size of the container (a block count)" % r.get("n")
         if ok is None:
             ck.incomplete("E1.size-bookkeeping", "%s: recorded extent `%s` not understood" % (key, render(e)))
             continue
@@ -753,17 +830,19 @@ def check_dispatch(ck, fn):
         ids.add(c["i"])
         for slot, a in zip(c.get("pn", []), c.get("a", [])):
             a = strip(a)
-            if not (a.get("k") == "Ref" and a.get("d") in own and own[a["d"]] == slot):
+            if not (a.get("k") == "Ref" and a.get("d") in own):
+                ck.incomplete("E1.dispatch", "%s: %s receives the expression `%s` in slot %s (not a plain parameter)" % (key, c["callee"].rsplit("::", 1)[-1], render(a)[:60], slot))
+                return
+            if own[a["d"]] != slot:
                 problems.append("%s: slot %s receives `%s`" % (c["callee"].rsplit("::", 1)[-1], slot, render(a)))
-        if len(c.get("a", [])) != len(fn.params):
-            problems.append("%s: %d of %d parameters forwarded" % (c["callee"], len(c.get("a", [])), len(fn.params)))
     cfg = fn.cfg
     if cfg is not None:
         def has_impl(n):
             return any(x.get("i") in ids for x in walk(n))
-        ok, bad = cfg.must_pass(has_impl)
+        ok, bad = live_must_pass(fn, has_impl)
         if not ok:
-            problems.append("a normal exit is reachable without calling an implementation")
+            ck.incomplete("E1.dispatch", "%s: a normal exit is reachable without a call to an implementation of the same struct (work done inline or by an unmodelled callee?)" % key)
+            return
     ck.ob("E1.dispatch", key, not problems, "; ".join(problems) if problems else "forwards %s to %s" % (list(own.values()), sorted({c["callee"].rsplit("::", 1)[-1] for c in impl})),
           fn.file, fn.line)
 
@@ -811,6 +890,20 @@ def is_meta_type(t):
         "FEAT::LAFEM::TupleVector", "FEAT::LAFEM::PowerVector", "TupleVector", "PowerVector")
 
 
+def _combiner(e):
+    """-> ('+'|'max'|'min', [operands]) for a recognised combiner expression, else (None, [])"""
+    e = strip(e)
+    if e.get("k") == "Bin" and e.get("op") == "+":
+        return "+", [e["lhs"], e["rhs"]]
+    if e.get("k") == "Call" and len(e.get("a", [])) == 2:
+        c = strip_targs(e.get("callee", ""))
+        if c in ("FEAT::Math::max", "std::max"):
+            return "max", list(e["a"])
+        if c in ("FEAT::Math::min", "std::min"):
+            return "min", list(e["a"])
+    return None, []
+
+
 def check_meta_method(ck, fn, recursive):
     name = fn.name
     mk, _ = meta_kind(fn.cls)
@@ -822,118 +915,164 @@ def check_meta_method(ck, fn, recursive):
     meta_params = [p["n"] for p in fn.params if is_meta_type(fn.type(p["t"]))]
     own = {p["d"]: (k, p["n"]) for k, p in enumerate(fn.params)}
     scheme = "MAP" if name in META_MAP else "FOLD(%s)" % META_FOLD[name]
-    problems = []
+    definite, soft = [], []       # soft: the body uses a construct the rule does not model -> analysis-incomplete
     body = stmts(fn.body)
-    calls_by_proj = {}
-    try:
-        # the sub-calls: member calls whose receiver is a projection of the receiver
-        subcalls = []
-        for n in fn.nodes():
-            if n.get("k") == "MCall":
-                pr = projection(n.get("obj"))
-                if pr is not None and pr[0] == "this":
-                    subcalls.append((pr[1], n))
-        if name == "norm2" and not any(c.get("n") == "norm2" for _, c in subcalls):
-            # norm2 = sqrt(norm2sqr()) on the receiver itself
-            if len(body) != 1 or body[0].get("k") != "Return":
-                raise Unknown("norm2 body is not a single return")
-            e = strip(body[0]["e"])
-            ok = (e.get("k") == "Call" and strip_targs(e.get("callee", "")) == "FEAT::Math::sqrt" and len(e["a"]) == 1)
-            inner = strip(e["a"][0]) if ok else None
-            if ok and inner.get("k") == "MCall" and inner.get("n") == "norm2sqr" and objkey(inner.get("obj")) == "this" and not inner.get("a"):
-                pass
-            elif ok and inner.get("k") == "MCall" and inner.get("n") == "norm2sqr" and projection(inner.get("obj")) == ("this", "first") and not recursive:
-                pass
-            else:
-                problems.append("norm2 returns `%s`, expected Math::sqrt(norm2sqr())" % render(e))
-            ck.ob("E4.map-fold", key, not problems, "[%s] " % inst + ("; ".join(problems) if problems else "norm2 = sqrt(norm2sqr)"), fn.file, fn.line)
+    KNOWN_OPS = set(META_MAP) | set(META_FOLD)
+
+    def is_proj_call(n):
+        return n.get("k") == "MCall" and n.get("n") in ("first", "rest") and not n.get("a")
+
+    # every call of the body must be modelled, otherwise "missing" verdicts are not definite
+    subcalls = []
+    for n in fn.nodes():
+        if n.get("k") in ("For", "While", "Do", "ForRange", "Lambda", "Switch"):
+            soft.append("%s statement at line %s" % (n["k"], n.get("l")))
+        if not is_call(n) or is_proj_call(n):
+            continue
+        if n.get("k") == "MCall":
+            pr = projection(loc.resolve(n.get("obj")) if n.get("obj") is not None else None)
+            if pr is not None and pr[0] == "this":
+                subcalls.append((pr[1], n))
+                continue
+            if objkey(n.get("obj")) == "this" and n.get("n") == "norm2sqr" and name == "norm2" and not n.get("a"):
+                continue
+            soft.append("call `%s` (line %s) is not a sub-call on first()/rest()" % (render(n)[:60], n.get("l")))
+            continue
+        if n.get("k") == "Call" and strip_targs(n.get("callee", "")) in ("FEAT::Math::max", "FEAT::Math::min", "FEAT::Math::sqrt", "std::max", "std::min", "std::sqrt", "std::move", "std::forward"):
+            continue
+        if n.get("k") in ("Construct", "TempObj") and len(n.get("a", [])) <= 1:
+            continue      # copies / conversions of scalars
+        soft.append("call `%s` (line %s) is not modelled" % (render(n)[:60], n.get("l")))
+
+    def finish():
+        if soft:
+            ck.incomplete("E4.map-fold", "%s [%s]: %s" % (key, inst, "; ".join(soft[:3])))
             return
-        for pr, c in subcalls:
-            if c.get("n") == "size" and name in ("set_vec", "set_vec_inv"):
-                continue      # offset expression, checked below
-            calls_by_proj.setdefault(pr, []).append(c)
-        for pr in want_proj:
-            cs = calls_by_proj.get(pr, [])
-            if len(cs) != 1:
-                problems.append("%s() is the receiver of %d sub-calls, expected exactly one" % (pr, len(cs)))
-        for pr in calls_by_proj:
-            if pr not in want_proj:
-                problems.append("unexpected projection %s()" % pr)
-        for pr in want_proj:
-            for c in calls_by_proj.get(pr, [])[:1]:
-                if c.get("n") != name:
-                    problems.append("%s() calls %s, not %s (method parity)" % (pr, c.get("n"), name))
-                if name == "size" and perspective(c) != perspective({"cfull": fn.full}):
-                    problems.append("%s().size<%s>() inside size<%s>()" % (pr, perspective(c), perspective({"cfull": fn.full})))
-                args = c.get("a", [])
-                used_meta = []
-                if len(args) != len(fn.params):
-                    problems.append("%s().%s receives %d arguments for %d parameters" % (pr, name, len(args), len(fn.params)))
-                for k, a in enumerate(args):
-                    ap = projection(loc.resolve(a))
-                    if ap is not None:
-                        if ap[1] != pr:
-                            problems.append("%s().%s(...) receives `%s`: operand projected by %s(), receiver by %s()" % (pr, name, render(a), ap[1], pr))
-                        if ap[0] not in meta_params:
-                            problems.append("%s().%s(...) receives `%s`, which is not an operand of the operation" % (pr, name, render(a)))
-                        used_meta.append(ap[0])
-                        continue
-                    r = loc.resolve(a)
-                    if name in ("set_vec", "set_vec_inv"):
-                        # first: the raw pointer; rest: pointer + first().size<pod>()
-                        if pr == "first":
-                            if not (r.get("k") == "Ref" and r.get("d") in own):
-                                problems.append("first().%s receives `%s`, expected the array parameter" % (name, render(a)))
-                        else:
-                            okoff = False
-                            if r.get("k") == "Bin" and r.get("op") == "+":
-                                p0, off = loc.resolve(r["lhs"]), loc.resolve(r["rhs"])
-                                if p0.get("k") != "Ref":
-                                    p0, off = off, p0
-                                if p0.get("k") == "Ref" and p0.get("d") in own and off.get("k") == "MCall" and off.get("n") == "size" \
-                                        and projection(off.get("obj")) == ("this", "first") and perspective(off) == "pod":
-                                    okoff = True
-                            if not okoff:
-                                problems.append("rest().%s receives `%s`, expected array + first().size<Perspective::pod>()" % (name, render(a)))
-                        continue
-                    if r.get("k") == "Ref" and r.get("d") in own:
-                        if own[r["d"]][0] != k:
-                            problems.append("%s().%s: argument %d is the parameter `%s` (position %d)" % (pr, name, k, own[r["d"]][1], own[r["d"]][0]))
-                        if own[r["d"]][1] in meta_params:
-                            problems.append("%s().%s receives the whole operand `%s` instead of its %s()" % (pr, name, own[r["d"]][1], pr))
-                        continue
-                    problems.append("%s().%s: argument `%s` is neither a projected operand nor an unchanged parameter" % (pr, name, render(a)))
-                if sorted(used_meta) != sorted(meta_params):
-                    problems.append("%s().%s uses operands %s, the operation has %s (each exactly once)" % (pr, name, used_meta, meta_params))
-        # shape of the body: MAP = the sub-calls as statements; FOLD = a single return combining them
-        if name in META_MAP:
-            for s in body:
-                if not (s.get("k") == "MCall" and any(s is c for cs in calls_by_proj.values() for c in cs)):
-                    raise Unknown("statement `%s` in a MAP body" % render(s)[:70])
+        ck.ob("E4.map-fold", key, not definite, "[%s] %s " % (inst, scheme) + ("; ".join(definite) if definite else "over %s, operands %s projected like the receiver" % (want_proj, meta_params)),
+              fn.file, fn.line, sample={"class": inst, "scheme": scheme, "body": [render(x)[:120] for x in body]})
+
+    # ---- norm2 = sqrt(norm2sqr) --------------------------------------------------------------------------
+    if name == "norm2" and not any(c.get("n") == "norm2" for _, c in subcalls):
+        rets = [x for x in body if x.get("k") == "Return"]
+        if len(rets) != 1 or any(x.get("k") not in ("Return", "Decl") for x in body):
+            soft.append("norm2 body is not `[locals] return ...`")
+            return finish()
+        e = loc.resolve(rets[0]["e"])
+        if not (e.get("k") == "Call" and strip_targs(e.get("callee", "")) in ("FEAT::Math::sqrt", "std::sqrt") and len(e["a"]) == 1):
+            soft.append("norm2 returns `%s`, which is not a square root" % render(e)[:80])
+            return finish()
+        inner = loc.resolve(e["a"][0])
+        if inner.get("k") == "MCall" and inner.get("n") == "norm2sqr" and not inner.get("a") and (objkey(inner.get("obj")) == "this" or (projection(inner.get("obj")) == ("this", "first") and not recursive)):
+            return finish()
+        comb, ops = _combiner(inner)
+        if comb is not None:
+            got = []
+            for o in ops:
+                o = loc.resolve(o)
+                got.append(projection(o.get("obj"))[1] if o.get("k") == "MCall" and o.get("n") == "norm2sqr" and projection(o.get("obj")) and projection(o.get("obj"))[0] == "this" else "?")
+            if "?" in got:
+                soft.append("norm2 takes the root of `%s`" % render(inner)[:80])
+            elif comb != "+":
+                definite.append("norm2 combines the squared norms of the parts by %s, expected +" % comb)
+            elif sorted(got) != want_proj:
+                definite.append("norm2 takes the root of the squared norms of %s, expected %s" % (got, want_proj))
+            return finish()
+        soft.append("norm2 takes the root of `%s`" % render(inner)[:80])
+        return finish()
+
+    calls_by_proj = {}
+    for pr, c in subcalls:
+        if c.get("n") == "size" and name in ("set_vec", "set_vec_inv"):
+            continue      # offset expression, checked below
+        calls_by_proj.setdefault(pr, []).append(c)
+    for pr in want_proj:
+        cs = calls_by_proj.get(pr, [])
+        if len(cs) != 1:
+            definite.append("%s() is the receiver of %d sub-calls, expected exactly one" % (pr, len(cs)))
+    for pr in calls_by_proj:
+        if pr not in want_proj:
+            definite.append("unexpected projection %s()" % pr)
+    for pr in want_proj:
+        for c in calls_by_proj.get(pr, [])[:1]:
+            if c.get("n") != name:
+                (definite if c.get("n") in KNOWN_OPS else soft).append("%s() calls %s, not %s (method parity)" % (pr, c.get("n"), name))
+            if name == "size" and perspective(c) != perspective({"cfull": fn.full}):
+                definite.append("%s().size<%s>() inside size<%s>()" % (pr, perspective(c), perspective({"cfull": fn.full})))
+            args = c.get("a", [])
+            used_meta = []
+            if len(args) != len(fn.params):
+                soft.append("%s().%s receives %d arguments for %d parameters" % (pr, name, len(args), len(fn.params)))
+            for k, a in enumerate(args):
+                ap = projection(loc.resolve(a))
+                if ap is not None:
+                    if ap[0] not in meta_params:
+                        soft.append("%s().%s(...) receives `%s`, which is not a projection of an operand" % (pr, name, render(a)))
+                    elif ap[1] != pr:
+                        definite.append("%s().%s(...) receives `%s`: operand projected by %s(), receiver by %s()" % (pr, name, render(a), ap[1], pr))
+                    used_meta.append(ap[0])
+                    continue
+                r = loc.resolve(a)
+                if name in ("set_vec", "set_vec_inv"):
+                    if pr == "first":
+                        if not (r.get("k") == "Ref" and r.get("d") in own):
+                            soft.append("first().%s receives `%s`" % (name, render(a)))
+                    else:
+                        okoff = None
+                        if r.get("k") == "Bin" and r.get("op") == "+":
+                            p0, off = loc.resolve(r["lhs"]), loc.resolve(r["rhs"])
+                            if p0.get("k") != "Ref":
+                                p0, off = off, p0
+                            if p0.get("k") == "Ref" and p0.get("d") in own and off.get("k") == "MCall" and off.get("n") == "size" \
+                                    and projection(off.get("obj")) == ("this", "first"):
+                                okoff = perspective(off) == "pod"
+                        if okoff is None:
+                            soft.append("rest().%s receives `%s` (offset form not modelled)" % (name, render(a)))
+                        elif not okoff:
+                            definite.append("rest().%s receives `%s`: the offset must be first().size<Perspective::pod>() (scalars), not the native block count" % (name, render(a)))
+                    continue
+                if r.get("k") == "Ref" and r.get("d") in own:
+                    if own[r["d"]][1] in meta_params:
+                        definite.append("%s().%s receives the whole operand `%s` instead of its %s()" % (pr, name, own[r["d"]][1], pr))
+                    elif own[r["d"]][0] != k:
+                        definite.append("%s().%s: argument %d is the parameter `%s` (position %d)" % (pr, name, k, own[r["d"]][1], own[r["d"]][0]))
+                    continue
+                soft.append("%s().%s: argument `%s` is neither a projected operand nor an unchanged parameter" % (pr, name, render(a)))
+            if sorted(used_meta) != sorted(meta_params):
+                definite.append("%s().%s uses operands %s, the operation has %s (each exactly once)" % (pr, name, used_meta, meta_params))
+    # shape of the body: MAP = the sub-calls as statements; FOLD = [locals] + a single return combining them
+    if name in META_MAP:
+        for x in body:
+            if not (x.get("k") == "MCall" and any(x is c for cs in calls_by_proj.values() for c in cs)) and x.get("k") != "Decl":
+                soft.append("statement `%s` in a MAP body" % render(x)[:70])
+    else:
+        rets = [x for x in body if x.get("k") == "Return"]
+        if len(rets) != 1 or any(x.get("k") not in ("Return", "Decl") for x in body):
+            soft.append("FOLD body is not `[locals] return ...`")
         else:
-            if len(body) != 1 or body[0].get("k") != "Return":
-                raise Unknown("FOLD body is not a single return")
-            e = strip(body[0]["e"])
+            e = loc.resolve(rets[0]["e"])
             comb = META_FOLD[name]
             if not recursive:
                 if not (e.get("k") == "MCall" and projection(e.get("obj")) == ("this", "first")):
-                    problems.append("base case returns `%s`, expected first().%s(...)" % (render(e), name))
+                    soft.append("base case returns `%s`" % render(e)[:80])
             else:
-                operands = None
-                if comb == "+" and e.get("k") == "Bin" and e.get("op") == "+":
-                    operands = [strip(e["lhs"]), strip(e["rhs"])]
-                elif comb in ("max", "min") and e.get("k") == "Call" and strip_targs(e.get("callee", "")) == "FEAT::Math::" + comb and len(e["a"]) == 2:
-                    operands = [strip(a) for a in e["a"]]
-                if operands is None:
-                    problems.append("combines the parts by `%s`, expected %s" % (render(e)[:90], {"+": "first + rest", "max": "Math::max(first, rest)", "min": "Math::min(first, rest)"}.get(comb, comb)))
+                got_comb, operands = _combiner(e)
+                if got_comb is None:
+                    if e.get("k") == "MCall" and projection(e.get("obj")) and projection(e.get("obj"))[0] == "this":
+                        pass        # a single part: already reported as a missing sub-call above
+                    else:
+                        soft.append("the parts are combined by `%s` (combiner not modelled)" % render(e)[:80])
+                elif got_comb != comb:
+                    definite.append("combines the parts by %s, expected %s" % (got_comb, comb))
                 else:
-                    got = sorted(projection(o.get("obj"))[1] if o.get("k") == "MCall" and projection(o.get("obj")) else "?" for o in operands)
-                    if got != ["first", "rest"]:
-                        problems.append("combiner operands are %s, expected the first() and the rest() result" % [render(o)[:50] for o in operands])
-        ck.ob("E4.map-fold", key, not problems, "[%s] %s " % (inst, scheme) + ("; ".join(problems) if problems else "over %s, operands %s projected like the receiver" % (want_proj, meta_params)),
-              fn.file, fn.line, sample={"class": inst, "scheme": scheme, "body": [render(s)[:120] for s in body]})
-    except Unknown as e:
-        ck.incomplete("E4.map-fold", "%s [%s]: %s" % (key, inst, e))
+                    got = []
+                    for o in operands:
+                        o = loc.resolve(o)
+                        got.append(projection(o.get("obj"))[1] if o.get("k") == "MCall" and projection(o.get("obj")) and projection(o.get("obj"))[0] == "this" else "?")
+                    if "?" in got:
+                        soft.append("combiner operands `%s` are not the part results" % [render(o)[:40] for o in operands])
+                    elif sorted(got) != ["first", "rest"]:
+                        definite.append("combiner operands are the results of %s, expected first() and rest()" % got)
+    finish()
 
 
 # -------------------------------------------------------------------------------------------------
